@@ -5,22 +5,38 @@ PROP = dict(
     all_exhaustive=True,
     stages=[dict(name="c19_expect", src="harness/c19_expect.cc", shards_quick=4, shards_thorough=8,
                  timeout_quick=300, timeout_thorough=900)],
-    rule=("two finite matrices enumerated completely: (a) 8 helpers (expect_eq/ne/gt/ge/lt/le, expect, expect_msg) x all operand "
+    rule=("finite matrices enumerated completely: (a) 8 helpers (expect_eq/ne/gt/ge/lt/le, expect, expect_msg) x all operand "
           "pairs over {INT64_MIN,-1,0,1,INT64_MAX}, {\"\",\"a\",\"b\",\"aa\"} and {-inf,-0.0,0.0,1.5,inf,NaN}; (b) expect_raises<E>(fn) for E over "
-          "10 exception types x fn in {returns, throws each of the 10 types, throws int} x {macro, expect_raises_fn} = 240 cells; plus "
-          "rapidcheck-generated operand pairs (boundary-biased int64, arbitrary double bit patterns, short byte strings, equal / adjacent pairs "
-          "forced in 1/3-1/2 of the cases). Non-trivial: every relation cell (each decides one relation on one operand pair); expect_raises cells "
-          "where fn returns normally or E is a base of expectation_failed (std::exception, std::logic_error, expectation_failed). "
-          "Distinct = distinct case encodings (hash)."),
+          "15 exception types (the ten of the std / phosg tree plus a type with two std::exception subobjects [runtime_error + out_of_range], a "
+          "virtual-inheritance diamond and one of its arms, a type with a private runtime_error base, a plain struct) x fn in {returns, throws each of "
+          "the 15 types, throws int} x {macro, expect_raises_fn} = 510 cells; (c) truth: expect / expect_msg on a RAW predicate (not a bool) of 15 "
+          "arithmetic / enumeration types (bool, char..unsigned long long, signed and unsigned __int128, float, double, long double, unscoped enum) x "
+          "24 x 8 boundary bit patterns - the relation of these two macros is 'the predicate converts to true'; (d) retain: sequences of failing calls; "
+          "every cell of (a)-(c) and every step of (d) under 5 ambient states of the C++ runtime: plain call, call from a destructor that runs during "
+          "stack unwinding (inside a try/catch in the destructor, so nothing leaves it), call inside a catch handler, destructor unwinding inside a "
+          "handler, freshly started thread; plus rapidcheck-generated cases (boundary-biased int64, arbitrary double bit patterns, short byte strings, "
+          "equal / adjacent pairs forced in 1/3-1/2 of the cases; raw predicates: zero, boundary, arbitrary, integers whose low 8/16/32/48/63 bits are "
+          "zero, 128-bit values decided by the high word only, float/double dyadic fractions down to the subnormal range, NaN/inf, long double from "
+          "significand x 2^exponent; ambient state plain in 1/2 of the cases). Non-trivial: every relation / truth cell (each decides one relation on "
+          "one operand pair / one conversion on one value); expect_raises cells where fn returns normally, or E is a base of expectation_failed "
+          "(std::exception, std::logic_error, expectation_failed), or E / the thrown type is one of the five non-tree types, or the ambient state is "
+          "not plain. Distinct = distinct case encodings (hash)."),
     assumptions=["expectation_failed::msg is only read when the message is a string literal (macro-generated); in the wrong-type arm of "
                  "expect_raises it points into a destroyed std::string and only what() is inspected",
-                 "the expected verdict of expect_raises<E> for a thrown T is std::is_convertible<const T*, const E*> (public unambiguous base)"],
+                 "the expected verdict of expect_raises<E> for a thrown T is std::is_convertible<const T*, const E*> (public unambiguous base), i.e. "
+                 "exactly what a `catch (const E&)` handler matches; cells where T derives from E only through an ambiguous or inaccessible base "
+                 "(E = std::exception with the two-subobject type; E = std::exception / runtime_error with the private-base type) are left open: "
+                 "either verdict is accepted, a failure must still be the helper's own expectation_failed with the call site (counted as excluded)",
+                 "the expected verdict of expect(v) / expect_msg(v, m) for a raw arithmetic v is computed on the representation (any value bit set; "
+                 "for float/double any bit besides the sign), cross-checked against static_cast<bool>(v)",
+                 "a helper called from a destructor during unwinding is wrapped in try/catch inside that destructor (legal C++: the exception does "
+                 "not leave the destructor); the property does not make the verdict depend on std::uncaught_exceptions()"],
     min_evaluations_quick=600,
     engine="rapidcheck + exhaustive enumerators",
-    technique="exhaustive enumeration of a finite relation x operand matrix and of an exception-type x behaviour matrix generated from a compile-time type list, plus rapidcheck-generated operand pairs; oracle = the native C++ relation and std::is_convertible on the exception hierarchy",
+    technique="exhaustive enumeration of a finite relation x operand matrix, of a predicate-type x bit-pattern matrix and of an exception-type x behaviour matrix generated from a compile-time type list, each crossed with five ambient runtime states (incl. call from a destructor during unwinding), plus rapidcheck-generated operand pairs; oracle = the native C++ relation, the value representation, and std::is_convertible on the exception hierarchy",
     level_text=("Exploration, complete inside the stated matrices: every cell calls the real macro / template (ASan+UBSan build of the working "
                 "tree), observes whether and what it throws, and compares with the native relation or the is-base-of fact; file, line and "
-                "message of every failure are compared with the call site. Outside the matrices (other operand types, other exception "
-                "hierarchies such as virtual or private bases) nothing is claimed."),
+                "message of every failure are compared with the call site. Outside the matrices (other operand types such as user-defined "
+                "classes with operator bool, other exception hierarchies, other ambient states) nothing is claimed."),
     level_note="Trusts the compiler's exception matching for the harness's own observation (catch of expectation_failed / std::exception / ...) and std::is_convertible.",
 )
